@@ -782,6 +782,9 @@ CONFIGS = [
 def main():
     chk = Check("C10", level="other", groups=["seed", "noise"])
     chk.build_props()
+    from harness import covtrace
+
+    _cov = covtrace.start({"stable_baselines3/common/noise.py": None, "stable_baselines3/common/utils.py": ["set_random_seed"], "stable_baselines3/common/base_class.py": ["BaseAlgorithm.set_random_seed"], "stable_baselines3/common/vec_env/base_vec_env.py": ["VecEnv.seed", "VecEnv._reset_seeds", "VecEnvWrapper.seed"], "stable_baselines3/common/buffers.py": ["BaseBuffer.sample", "ReplayBuffer.sample", "DictReplayBuffer.sample", "RolloutBuffer.get", "DictRolloutBuffer.get"], "stable_baselines3/her/her_replay_buffer.py": ["HerReplayBuffer.sample", "HerReplayBuffer._get_virtual_samples", "HerReplayBuffer._sample_goals"]}) if covtrace.enabled() else None
     # ---- (1) scan
     sites, failures, allowed = scan_repo()
     tags = [t for (_, _, _, t, _) in sites]
@@ -920,6 +923,8 @@ def main():
         "the scan's resolution rules (receiver-name heuristics for .sample()) are trusted; unknown receivers fail closed",
         "common/envs/ (example environments) and env_checker.py are outside the scan; NatureCNN's observation_space.sample() shape probe is a reviewed exception",
     ]
+    if _cov is not None:
+        chk.notes["branch_coverage"] = _cov.stop()
     return chk.finish()
 
 
